@@ -31,7 +31,8 @@ func init() {
 			"validateUserId, validateSerialNumber, validateURISAN and validateOtherSANs accept only behind a match against the role's list (constant flags, no acceptance after a missing OID or unmatched value); " +
 			"with allow_globs_in_identity_templates off, identity templates in validateNames/validateURISAN are populated only after * was blocked; " +
 			"the update and patch issuer endpoints store for each leaf_not_after_behavior name the enum value certutil's name table gives it, and every other writer of issuerEntry.LeafNotAfterBehavior stores err; " +
-			"a match flag tested inside a loop of a validator (validateOtherSANs, validateNames, validateUserId, validateSerialNumber, validateURISAN) never carries the value of the previous iteration: it is assigned afresh inside the innermost loop over the requested values.",
+			"a match flag tested inside a loop of a validator (validateOtherSANs, validateNames, validateUserId, validateSerialNumber, validateURISAN) never carries the value of the previous iteration: it is assigned afresh inside the innermost loop over the requested values; " +
+			"URI SANs enter the bundle element by element behind their own validateURISAN verdict — a whole slice is appended only after a loop in generateCreationBundle validated every element of that very slice (an any-match test over the slice is a violation).",
 		NotDecided: "the string/suffix/glob semantics of validateNames over DNS labels (values); that the parsed certificate satisfies all constraints simultaneously; serial uniqueness (probabilistic); arithmetic of time comparisons; the policy expressed by a CEL role program (CEL roles replace, not refine, classic roles); crypto/x509's own encoding.",
 		Run:        runC15,
 	})
